@@ -168,7 +168,7 @@ def _run(mod, args, seed, t0):
                 dump = os.path.join(REPLAY_DIR, "NONREPRO-%s.json" % mod.PROP)
                 with open(dump, "w") as fp:
                     json.dump({"property": mod.PROP, "engine": mod.ENGINE, "signature": v["signature"], "message": v["message"], "scenario": v["scenario"],
-                               "replayed": rr.get("violations", [])}, fp, indent=1)
+                               "found_by": v.get("found_by"), "replayed": rr.get("violations", [])}, fp, indent=1)
                 print("HARNESS-WARNING property=%s violation %s did not reproduce on replay in a fresh interpreter (scenario dumped to %s); not reported" % (mod.PROP, key, dump))
                 nonrepro += 1
                 continue
